@@ -125,6 +125,20 @@ def run(tier):
                             {"task": {k: v for k, v in t.items() if k != "_b"}, "expected_reads": b["expect"], "observed": r})
     check.sample({"direction": "spec->impl", "behaviour": behaviours[len(behaviours) // 2]})
 
+    # ---- the abstract promise (PoolAbs.tla: Fresh, NonInterference) on runs far longer than TLC enumerates: many block sizes
+    # (powers of two and not, below and above the default) x tens of thousands of requests
+    lsizes = [1, 2, 3, 5, 7, 8, 12, 100, 1000, 1023, 1024, 1025, 1500, 4096, 5000, 8192, 10000]
+    count = 40000 if tier == "quick" else 400000
+    lt = [{"op": "pool_long", "kind": kind, "size": sz, "count": count, "limit_ms": 120000} for sz in lsizes for kind in KINDS]
+    for t, r in zip(lt, wp.run(lt)):
+        check.count()
+        check.distinct(("long", t["kind"], t["size"]))
+        if r.get("panic") or r.get("hang") or r.get("crash"):
+            check.violation({"class": "crash", "kind": t["kind"], "size_class": "long"}, {"task": t, "observed": r})
+        elif r.get("bad"):
+            check.violation({"class": r["bad"], "kind": t["kind"], "size_class": "long"}, {"task": t, "observed": r})
+    check.cov["long_runs"] = {"sizes": lsizes, "requests_each": count}
+
     # ---- impl -> spec: long histories on the real pools validated by TLC
     plan = [(1, 6), (2, 7), (3, 11), (7, 23), (64, 3 * 64 + 2)]
     plan.append((1024, 2 * 1024 + 2 if tier == "quick" else 3 * 1024 + 2))
